@@ -114,10 +114,18 @@ class DPOptimizerFastGradientClipping(DPOptimizer):
         Stores aggregated gradients into `p.summed_grad```
         """
         for p in self.params:
+            if p.grad is None:
+                raise ValueError(
+                    "No gradient to accumulate. Each optimizer step must be preceded by "
+                    "a backward pass of the DP loss."
+                )
             if p.summed_grad is not None:
                 p.summed_grad.add_(p.grad.data)
             else:
                 p.summed_grad = copy.deepcopy(p.grad.data)
+            # The clipped gradients of this backward pass are now held by summed_grad:
+            # drop them, so that another step without a new backward pass can't add them twice
+            p.grad = None
 
     def zero_grad(self, set_to_none: bool = False):
         """
